@@ -70,10 +70,26 @@ def equal(a, b, rtol=1e-9, atol=1e-12):
         return bool(np.array_equal(aa, bb))
 
 
+def snapshot(v, depth=0):
+    """Copy of the arrays in a result (also inside tuples / lists / dicts):
+    what was observed must not change when the library later writes into the
+    same buffer (shared scratch arrays, memoised results edited in place)."""
+    if isinstance(v, np.ndarray):
+        return v.copy()
+    if depth < 3:
+        if isinstance(v, tuple):
+            return tuple(snapshot(x, depth + 1) for x in v)
+        if isinstance(v, list):
+            return [snapshot(x, depth + 1) for x in v]
+        if isinstance(v, dict):
+            return {k: snapshot(x, depth + 1) for k, x in v.items()}
+    return v
+
+
 def outcome(f, *args, **kw):
     """Call f; return ('ok', value) or ('exc', ExceptionTypeName)."""
     try:
-        return ("ok", f(*args, **kw))
+        return ("ok", snapshot(f(*args, **kw)))
     except (KeyboardInterrupt, SystemExit, MemoryError):
         raise
     except BaseException as e:   # the library raises many kinds
